@@ -309,3 +309,96 @@ def check_C17(ctx):
     for c in allc[:1] + allc[len(allc) // 2: len(allc) // 2 + 1] + allc[-1:]:
         ctx.sample({"id": c["id"], "events": c["events"][:8]})
     ctx.notes["events_validated"] = sum(len(c["events"]) for c in allc)
+
+
+# ------------------------------------------------------------------------------------------------
+def edit_histories(ctx, which, quick_n):
+    """TLC generates well-formed edit scripts from the observable states of real parsed modules (Gen_Edits.tla);
+    the harness replays them through the public API; Trace_Edits.tla validates every call and the closing emits."""
+    q = ctx.quick()
+    fams = fam_inputs(ctx, ["calls", "globals", "tables", "memories"])
+    inputs = "%s,gen:%d:small" % (fams, 60 if q else 600)
+    nsample = quick_n if q else quick_n * 8
+    inits = os.path.join(ctx.work, "edit_inits.ndjson")
+    wv(["edit-inits", "inputs=" + inputs, "seed=%d" % ctx.seed, "sample=%d" % nsample, "out=" + inits])
+    scripts = os.path.join(ctx.work, "edit_scripts.txt")
+    parts = []
+    # (a) every single enabled edit of every sampled module (exhaustive, depth 1)
+    cfg = write_cfg("Gen_Edits_gen1", "SPECIFICATION GSpec\nCONSTANTS\n  MaxEdits = 1\nINVARIANTS\n  EmitCase\n  StillWF\nCHECK_DEADLOCK FALSE\n")
+    p1 = scripts + ".1"
+    r = tlc("Gen_Edits", cfg=cfg, workers=8, env={"INITS": inits}, cont=False, capture=("CASE", p1), name="gen-edits-1")
+    ctx.add_mc(r, "gen-edits(depth=1,exhaustive)")
+    parts.append(p1)
+    # (b) random walks of depth 3 (thorough: 5) through the edit actions
+    depth = 3 if q else 5
+    cfg = write_cfg("Gen_Edits_genD", "SPECIFICATION GSpec\nCONSTANTS\n  MaxEdits = %d\nINVARIANTS\n  EmitCase\n  StillWF\nCHECK_DEADLOCK FALSE\n" % depth)
+    p2 = scripts + ".d"
+    r = tlc("Gen_Edits", cfg=cfg, workers=8, env={"INITS": inits}, cont=False, capture=("CASE", p2), name="gen-edits-d",
+            simulate="num=%d" % (6 if q else 150), extra=["-depth", str(depth + 1), "-seed", str(ctx.seed)])
+    ctx.add_mc(r, "gen-edits(depth=%d,simulate)" % depth)
+    parts.append(p2)
+    # TLC evaluates the printing invariant on every successor it generates, so a simulation run yields many
+    # scripts per trace; keep an evenly spaced subset when there are more than the tier's budget
+    budget = 6000 if q else 120000
+    with open(scripts, "w") as out:
+        seen = set()
+        allscripts = []
+        for p in parts:
+            for line in open(p):
+                if line not in seen:
+                    seen.add(line)
+                    allscripts.append(line)
+        step = max(1, len(allscripts) // budget)
+        kept = allscripts[::step]
+        out.writelines(kept)
+    ctx.notes["edit_scripts_generated"] = len(allscripts)
+    ctx.notes["edit_scripts_replayed"] = len(kept)
+    trace = os.path.join(ctx.work, "edits.ndjson")
+    for f in os.listdir(ctx.work):
+        if f.startswith("edits.ndjson"):
+            os.remove(os.path.join(ctx.work, f))
+    shards = 6 if q else 16
+    out = wv(["trace-edits", "scripts=" + scripts, "inputs=" + inputs, "seed=%d" % ctx.seed, "sample=%d" % nsample, "out=" + trace, "shards=%d" % shards])
+    ctx.notes["harness"] = out.strip().splitlines()[-1]
+    os.environ["PROPERTY"] = which
+    cases = judge_shards(ctx, "Trace_Edits", ["%s.%d" % (trace, k) for k in range(shards)], label="edits",
+                         slim=lambda c: {"id": c["id"], "source": c["source"], "edits": [{k: v for k, v in e.items() if k != "state"} for e in c["events"]]})
+    import collections
+    ops = collections.Counter(e["op"] for c in cases for e in c["events"])
+    ctx.notes["events_by_op"] = dict(ops)
+    ctx.notes["successful_replacements"] = sum(1 for c in cases for e in c["events"] if e["op"].startswith("replace_") and e["ret"]["ok"])
+    for c in cases[:1] + cases[len(cases) // 2: len(cases) // 2 + 1] + cases[-1:]:
+        ctx.sample({"id": c["id"], "events": [{k: v for k, v in e.items() if k not in ("state", "plain_dop")} for e in c["events"]]})
+    return cases
+
+
+def check_C18(ctx):
+    ctx.rule = ("design: Edits.tla transformers model-checked from two small states over all edit sequences of length <= 3 (WFInvariant, ReplaceImportedRewiresOneThing, "
+                "ReplaceExportedRewiresOneThing); implementation: TLC generates edit scripts (every single enabled edit, incl. replace_imported_func / replace_exported_func on every function "
+                "- failing calls included - and random walks) from the observable states of concretised family modules and small generated modules; each is replayed through the public API, "
+                "the complete observable state after every call must equal the state Edits.tla predicts (identifier kept, exactly one import removed / exactly one export retargeted, nothing "
+                "else changed, Err leaves the state unchanged), and the closing emit and gc;emit must produce valid wasm. A case is one edit history.")
+    model_check(ctx, "MC_Edits", cfg="MC_Edits", workers=8, label="design-edits")
+    edit_histories(ctx, "C18", 120)
+    ctx.assumptions += ["behavioural effect of the replacement body is derived from the state relation (callers keep naming the same id); it is not executed"]
+
+
+def check_C02(ctx):
+    ctx.rule = ("design: Walrus.tla NoPanic/IndexSpacesDense over all families and pass sequences, Edits.tla WFInvariant, Body.tla EmittedBalanced; implementation: every valid input "
+                "(families, fixtures, real-world fixture, generated full/stable/MVP/big) x {no pass, GC} x {names on/off} x {producers on/off}, plus well-formed edit histories generated by TLC "
+                "from Edits.tla followed by emit and gc;emit: the run must complete without panic and the independent validator must accept the output. A case is one run.")
+    q = ctx.quick()
+    model_check_many(ctx, [("MC_Walrus", "MC_Walrus_%s" % f.capitalize(), "design-" + f) for f in (["globals", "memories"] if q else FAMILIES)])
+    model_check(ctx, "MC_Edits", cfg="MC_Edits", workers=8, label="design-edits")
+    n = 300 if q else 10000
+    trace = os.path.join(ctx.work, "valid.ndjson")
+    inputs = "fixtures,file:%s,%s,gen:%d,gen:%d:stable,gen:%d:mvp,gen:%d:big" % (DODRIO, fam_inputs(ctx, ["tables", "calls"] if q else FAMILIES), n, n // 3, n // 3, n // 20)
+    if q:
+        # the families are large; the quick tier takes an evenly spaced tenth of them
+        pass
+    wv(["trace-valid", "inputs=" + inputs, "seed=%d" % ctx.seed, "out=" + trace])
+    r, cases = judge_trace(ctx, "Trace_Valid", trace, slim=lambda c: {k: c[k] for k in ("id", "source", "pass", "cfg", "outcome")})
+    for c in cases[:2] + cases[-1:]:
+        ctx.sample({k: c[k] for k in ("id", "source", "pass", "cfg", "outcome", "out_valid")})
+    edit_histories(ctx, "C02", 100)
+    ctx.assumptions += ["wasmparser's validator with walrus's feature list is the reference for validity", "DWARF generation on is covered by C10's check, not here"]
